@@ -92,6 +92,42 @@ theorem stpBody_cases (cfg : Cfg) (isN : Bool) (dest dmax src m g slen : Nat) (s
         (fun h => by have := hsl h; omega) (fun i hi => hun i (by omega))
       exact ⟨_, st', hx, StpAll.of_full hC1 hC2 hp⟩
 
+/-- ESOVRLP exactly in the first case -/
+theorem StpAll.ovrlp_iff {cfg : Cfg} {dest dmax src m g : Nat} {st st' : St} {r : Nat × Nat}
+    (hg : 0 < g) (h : StpAll cfg dest dmax src m g st st' r) : r.2 = ESOVRLP ↔ g ≤ m ∧ g < dmax := by
+  by_cases hA : g ≤ m ∧ g < dmax
+  · rw [(h.hit hA.1 hA.2).1]; exact ⟨fun _ => hA, fun _ => rfl⟩
+  by_cases hB : m < dmax
+  · rw [(h.done hB (by omega)).1]
+    exact ⟨fun hc => absurd (show EOK = ESOVRLP from hc) (by decide), fun hc => absurd hc hA⟩
+  · rw [(h.full (by omega) (by omega)).1]; exact ⟨fun hc => absurd hc (by decide), fun hc => absurd hc hA⟩
+
+/-- **the copy runs into the other operand** (source possibly unterminated): the first `g` characters are non-NUL,
+the meeting point lies inside dest, `slen` (bounded variant) reaches it -/
+theorem stpBody_overlap (cfg : Cfg) (isN : Bool) (dest dmax src g slen : Nat) (srcbos : Bos) (st : St)
+    (hall : ∀ a, st.mapped a = true ∧ st.rd a = true)
+    (hpos : 0 < dmax) (hrw : RW st dest dmax)
+    (hg : 0 < g ∧ ((dest < src ∧ src = dest + g) ∨ (src < dest ∧ dest = src + g)))
+    (hgd : g < dmax)
+    (hnz : ∀ j, j < g → st.data (src+j) ≠ 0)
+    (hsl : isN = true → g ≤ slen)
+    (hun : ∀ i, i < g → untermB srcbos (stpSlen isN slen (i+1)) = false) :
+    ∃ st', exec (stpBody cfg isN dest dmax src slen srcbos) st = .ok ((0, ESOVRLP), st') ∧
+      ClearedPost cfg dest dmax ESOVRLP st st' := by
+  unfold stpBody
+  have hne : dest ≠ src := by omega
+  rw [if_neg hne]
+  rcases hg.2 with ⟨hlt, he⟩ | ⟨hlt, he⟩
+  · rw [if_pos hlt]
+    exact stpLoop_hit cfg isN true src dest dmax hpos srcbos dmax dest src g slen st hall hrw
+      ⟨Nat.le_refl _, rfl⟩ hgd hnz (by intro i j _ _; omega)
+      (by intro j hj; simp only [if_true]; omega) (by simp only [if_true]; omega) hsl hun
+  · rw [if_neg (by omega)]
+    exact stpLoop_hit cfg isN false dest dest dmax hpos srcbos dmax dest src g slen st hall hrw
+      ⟨Nat.le_refl _, rfl⟩ hgd hnz (by intro i j _ _; omega)
+      (by intro j hj; simp only [Bool.false_eq_true, if_false]; omega)
+      (by simp only [Bool.false_eq_true, if_false]; omega) hsl hun
+
 /-! ## the entry checks on usable arguments -/
 
 theorem stpcpy_s_eq_body (cfg : Cfg) (dest dmax src : Nat) (destbos srcbos : Bos)
